@@ -2,8 +2,10 @@
 their rendering to Guppy source, and an independent well-formedness check.
 
 Statement records (field "k"):
-  asg v t | cpy v s | use v | if c a b [elif] | while c a | for v a | break | continue | ret | def a
+  asg v t | cpy v s | use v | comp v u [e] | if c a b [elif] | while c a | for v a | break | continue | ret | def a
 `c` is "c" (the bool parameter of main) or a variable name (the condition reads it).
+comp = `ws = array(<elt> for <v> in range(3))`: v in va|vb|vt is the comprehension's own variable; u is the outer
+variable the element expression reads ("-" if none: then e = "lit" (1) or "tgt" (the target itself)).
 "l" (1-based line inside the rendered source text) is filled in by `render`.
 
 Statements after a jump (dead code) are generated too: Guppy checks them along never-taken
@@ -123,7 +125,7 @@ def swap_vars(ss: list) -> list:
     out = []
     for s in ss:
         t = dict(s)
-        for f in ("v", "s", "c"):
+        for f in ("v", "s", "c", "u"):
             if f in t:
                 t[f] = m.get(t[f], t[f])
         for f in ("a", "b"):
@@ -174,6 +176,9 @@ def render(body: list, rng: random.Random | None = None) -> tuple[str, list]:
             s["l"] = emit(ind, f"{s['v']} = {s['s']}")
         elif k == "use":
             s["l"] = emit(ind, f"{s['v']}")
+        elif k == "comp":
+            elt = s["u"] if s["u"] != "-" else (s["v"] if s.get("e") == "tgt" else "1")
+            s["l"] = emit(ind, f"ws = array({elt} for {s['v']} in range(3))")
         elif k == "if":
             s["l"] = emit(ind, f"{'elif' if elif_ else 'if'} {s['c']}:")
             block(s["a"], ind + 1)
@@ -240,6 +245,79 @@ def atoms(in_loop: bool) -> list:
     out = [{"k": "asg", "v": v, "t": t} for v in VARS for t in TYPES]
     out += [{"k": "cpy", "v": "va", "s": "vb"}, {"k": "cpy", "v": "vb", "s": "va"}]
     out += [{"k": "use", "v": v} for v in VARS]
+    return out
+
+
+def comp_atoms() -> list:
+    out = []
+    for v in (*VARS, "vt"):
+        out += [{"k": "comp", "v": v, "u": "-", "e": "lit"}, {"k": "comp", "v": v, "u": "-", "e": "tgt"}]
+        out += [{"k": "comp", "v": v, "u": u} for u in VARS if u != v]
+    return out
+
+
+def line_info(ss: list, depth_: int = 0, in_def: bool = False, out: dict | None = None) -> dict:
+    """line -> (statement, number of enclosing if/loop bodies, inside a nested function?)"""
+    out = {} if out is None else out
+    for s in ss:
+        out[s.get("l")] = (s, depth_, in_def)
+        for f in ("a", "b"):
+            if f in s:
+                line_info(s[f], depth_ + (s["k"] != "def"), in_def or s["k"] == "def", out)
+    return out
+
+
+def shadow_live_across(body: list, v: str, comp_line: int, read_lines: set) -> bool:
+    """Vacuity-guard helper: the comprehension at comp_line (binding v) sits in a non-entry block of main and some
+    read of v in `read_lines` lies in a later, enclosing block with no assignment to v in between."""
+    info = line_info(body)
+    _, d, in_def = info[comp_line]
+    if in_def or d == 0:
+        return False
+    for r in read_lines:
+        if r > comp_line and not info[r][2] and info[r][1] < d and not any(
+                comp_line < l <= r and st["k"] in ("asg", "cpy", "for") and st.get("v") == v for l, (st, _, _) in info.items()):
+            return True
+    return False
+
+
+def has_comp(ss: list) -> bool:
+    return any(s["k"] == "comp" or any(has_comp(s[f]) for f in ("a", "b") if f in s) for s in ss)
+
+
+def comp_family() -> list:
+    """Comprehensions whose variable may coincide with an enclosing local: the local assigned in the entry block /
+    an earlier block / on one path / never; the comprehension in the entry block, an if arm, a loop body, a nested
+    function, a later block; reads of the local before and after."""
+    asg = lambda v, t: {"k": "asg", "v": v, "t": t}
+    use = lambda v: {"k": "use", "v": v}
+    IF = lambda a, b: {"k": "if", "c": "c", "a": a, "b": b}
+    pres = [[asg("va", "int")], [asg("va", "bool")], [IF([asg("va", "int")], [asg("va", "int")])], [IF([asg("va", "bool")], [])], []]
+    comps = [{"k": "comp", "v": "va", "u": "-", "e": "lit"}, {"k": "comp", "v": "va", "u": "-", "e": "tgt"},
+             {"k": "comp", "v": "va", "u": "vb"}, {"k": "comp", "v": "vb", "u": "va"}, {"k": "comp", "v": "vt", "u": "va"},
+             {"k": "comp", "v": "vt", "u": "-", "e": "lit"}]
+    places = [
+        lambda c: [c],
+        lambda c: [IF([c], [])],
+        lambda c: [IF([], [c])],
+        lambda c: [IF([use("va"), c], [])],
+        lambda c: [{"k": "while", "c": "c", "a": [c]}],
+        lambda c: [{"k": "for", "v": "vi", "a": [c, use("va")]}],
+        lambda c: [{"k": "def", "a": [c]}],
+        lambda c: [IF([{"k": "def", "a": [use("va"), c]}], [])],
+        lambda c: [IF([], []), c],
+        lambda c: [{"k": "while", "c": "c", "a": [IF([c], [{"k": "continue"}])]}],
+    ]
+    posts = [[], [use("va")], [{"k": "cpy", "v": "vb", "s": "va"}, use("vb")], [{"k": "if", "c": "va", "a": [], "b": []}]]
+    out, seen = [], set()
+    for pre in pres:
+        for c in comps:
+            for pl in places:
+                for post in posts:
+                    p = json.loads(json.dumps(pre + pl(c) + post))
+                    if key(p) not in seen:
+                        seen.add(key(p))
+                        out.append(p)
     return out
 
 
@@ -390,6 +468,8 @@ def random_stmt(rng: random.Random, budget: int, d: int, in_loop: bool, in_def: 
         r2 = rng.random()
         if r2 < 0.12:
             return dict(rng.choice(jumps(in_loop))), 1
+        if r2 < 0.22:
+            return dict(rng.choice(comp_atoms())), 1
         return dict(rng.choice(atoms(in_loop))), 1
     inner = budget - 1
     kind = rng.choices(["if", "while", "for", "def"], [5, 3, 2, 0 if in_def else 2])[0]
